@@ -422,7 +422,7 @@ class FactBase:
         crates = {f.crate for f in self.fns.values()}
         known = {v["id"] for v in table.values()}
         ren = {}
-        for rx, rec in table.items():
+        for rx, rec in sorted(table.items()):
             if rec["crate"] not in crates or rec["id"] in self.fns or rec["id"] in ren.values():
                 continue
             cands = [f for f in self.fns.values() if f.crate == rec["crate"] and not f.root and f.id not in known
@@ -501,10 +501,6 @@ class FactBase:
 
     def one(self, pattern, crate=None):
         r = self.find(pattern, crate)
-        if not r:
-            g = self._by_signature(pattern)
-            if g is not None:
-                return g
         if len(r) != 1:
             raise AnchorError("anchor %r: expected exactly one function, found %d: %s" %
                               (pattern, len(r), [f.id for f in r][:6]))
